@@ -12,20 +12,58 @@ import (
 	"os"
 	"strconv"
 
+	"github.com/goccmack/gocc/internal/ast"
+	"github.com/goccmack/gocc/internal/frontend/token"
 	"github.com/goccmack/gocc/internal/lexer/items"
 )
 
-type c18op struct{ F, T rune }
+// c18op: one operation on the range set. Via "raw" calls AddRange(F,T) directly; "node" goes through AddLexTNode with
+// the AST node a grammar would produce (a character literal when F == T and Lit is set, else a character range -
+// including one-rune ranges such as 'c'-'c'); runes are offset to letters for the node forms.
+type c18op struct {
+	F, T rune
+	Via  string
+}
+
+func c18apply(s *items.DisjunctRangeSet, o c18op) {
+	if o.Via == "" || o.Via == "raw" {
+		s.AddRange(o.F, o.T)
+		return
+	}
+	lit := func(r rune) *token.Token {
+		return &token.Token{Type: token.FRONTENDTokens.Type("char_lit"), Lit: []byte("'" + string('a'+r) + "'")}
+	}
+	var n ast.LexTNode
+	if o.Via == "lit" {
+		n, _ = ast.NewLexCharLit(lit(o.F))
+	} else {
+		n, _ = ast.NewLexCharRange(lit(o.F), lit(o.T))
+	}
+	s.AddLexTNode(n)
+}
+
+// c18norm maps the classes of a set built through nodes (letters) back to the small universe.
+func c18norm(l []items.CharRange, via bool) []items.CharRange {
+	out := append([]items.CharRange(nil), l...)
+	if via {
+		for i := range out {
+			out[i].From -= 'a'
+			out[i].To -= 'a'
+		}
+	}
+	return out
+}
 
 type c18out struct {
-	States      int       `json:"states"`
-	Transitions int       `json:"transitions"`
-	MaxDepth    int       `json:"max_depth"`
-	Universe    int       `json:"universe"`
-	Violations  []c18viol `json:"violations"`
-	Samples     []c18viol `json:"samples"`
-	Replayed    int       `json:"replayed"`
-	NoopChecked int       `json:"noop_checked"`
+	States         int       `json:"states"`
+	StatesViaNodes int       `json:"states_via_nodes"`
+	Transitions    int       `json:"transitions"`
+	MaxDepth       int       `json:"max_depth"`
+	Universe       int       `json:"universe"`
+	Violations     []c18viol `json:"violations"`
+	Samples        []c18viol `json:"samples"`
+	Replayed       int       `json:"replayed"`
+	NoopChecked    int       `json:"noop_checked"`
 }
 
 type c18viol struct {
@@ -39,7 +77,7 @@ type c18viol struct {
 func c18build(path []c18op) *items.DisjunctRangeSet {
 	s := items.NewDisjunctRangeSet()
 	for _, o := range path {
-		s.AddRange(o.F, o.T)
+		c18apply(s, o)
 	}
 	return s
 }
@@ -73,7 +111,8 @@ func c18isUnion(l []items.CharRange, f, t rune) bool {
 
 // c18check applies op o after path and returns a description of the first invariant broken ("" if none).
 func c18check(path []c18op, o c18op, K rune) (msg string, old, nl []items.CharRange) {
-	old = append([]items.CharRange(nil), c18build(path).List()...)
+	via := o.Via != "" && o.Via != "raw"
+	old = c18norm(c18build(path).List(), via)
 	s := c18build(path)
 	func() {
 		defer func() {
@@ -81,9 +120,9 @@ func c18check(path []c18op, o c18op, K rune) (msg string, old, nl []items.CharRa
 				msg = fmt.Sprint("panic: ", r)
 			}
 		}()
-		s.AddRange(o.F, o.T)
+		c18apply(s, o)
 	}()
-	nl = append([]items.CharRange(nil), s.List()...)
+	nl = c18norm(s.List(), via)
 	if msg != "" {
 		return
 	}
@@ -137,45 +176,64 @@ func init() {
 			k, _ := strconv.Atoi(args[0])
 			K = rune(k)
 		}
-		var ops []c18op
-		for f := rune(0); f <= K; f++ {
-			for t := rune(0); t <= K; t++ {
-				ops = append(ops, c18op{f, t})
-			}
-		}
 		key := func(l []items.CharRange) string { return fmt.Sprint(l) }
 		out := c18out{Universe: int(K) + 1}
-		seen := map[string][]c18op{key(nil): nil}
-		queue := [][]c18op{nil}
-		for len(queue) > 0 && len(out.Violations) < 20 {
-			path := queue[0]
-			queue = queue[1:]
-			for _, o := range ops {
-				msg, old, nl := c18check(path, o, K)
-				out.Transitions++
-				if o.F > o.T {
-					out.NoopChecked++
-				}
-				v := c18viol{Msg: msg, Path: path, Op: o, Old: fmt.Sprint(old), New: fmt.Sprint(nl)}
-				if msg != "" {
-					out.Violations = append(out.Violations, v)
-					continue
-				}
-				if len(out.Samples) < 4 && len(path) == 3 && o.F < o.T && len(nl) > 3 {
-					out.Samples = append(out.Samples, v)
-				}
-				k := key(nl)
-				if _, ok := seen[k]; !ok {
-					np := append(append([]c18op(nil), path...), o)
-					seen[k] = np
-					queue = append(queue, np)
-					if len(np) > out.MaxDepth {
-						out.MaxDepth = len(np)
+		var seenAll map[string][]c18op
+		for _, mode := range []string{"raw", "node"} {
+			var ops []c18op
+			for f := rune(0); f <= K; f++ {
+				for t := rune(0); t <= K; t++ {
+					switch {
+					case mode == "raw":
+						ops = append(ops, c18op{f, t, "raw"})
+					case f == t:
+						ops = append(ops, c18op{f, t, "lit"}, c18op{f, t, "range"})
+					case f < t:
+						ops = append(ops, c18op{f, t, "range"})
 					}
 				}
 			}
+			seen := map[string][]c18op{key(nil): nil}
+			queue := [][]c18op{nil}
+			for len(queue) > 0 && len(out.Violations) < 20 {
+				path := queue[0]
+				queue = queue[1:]
+				for _, o := range ops {
+					msg, old, nl := c18check(path, o, K)
+					out.Transitions++
+					if o.F > o.T {
+						out.NoopChecked++
+					}
+					v := c18viol{Msg: msg, Path: path, Op: o, Old: fmt.Sprint(old), New: fmt.Sprint(nl)}
+					if msg != "" {
+						out.Violations = append(out.Violations, v)
+						continue
+					}
+					if len(out.Samples) < 4 && len(path) == 3 && o.F < o.T && len(nl) > 3 {
+						out.Samples = append(out.Samples, v)
+					}
+					k := key(nl)
+					if _, ok := seen[k]; !ok {
+						np := append(append([]c18op(nil), path...), o)
+						seen[k] = np
+						queue = append(queue, np)
+						if len(np) > out.MaxDepth {
+							out.MaxDepth = len(np)
+						}
+					}
+				}
+			}
+			if mode == "raw" {
+				out.States = len(seen)
+				seenAll = seen
+			} else {
+				out.StatesViaNodes = len(seen)
+				if len(seen) != out.States && len(out.Violations) == 0 {
+					out.Violations = append(out.Violations, c18viol{Msg: fmt.Sprintf("reachable class lists differ: %d through AddRange, %d through AddLexTNode", out.States, len(seen))})
+				}
+			}
 		}
-		out.States = len(seen)
+		seen := seenAll
 		// determinism of replay: every state's shortest path, rebuilt twice, gives the same content
 		for k, p := range seen {
 			if key(c18build(p).List()) != k || key(c18build(p).List()) != k {
